@@ -16,6 +16,47 @@ def _is_ground_term(e, cache):
     return r
 
 
+_COMMON = {'items', 'pack', 'truthy', 'isinst', 'ev', 'int2dec', 'dec2int', 'obj_truthy', 'val_lt', 'hash'}
+
+
+def _symbols(e, memo, out):
+    k = e.get_id()
+    if k in memo:
+        return
+    memo.add(k)
+    if z3.is_quantifier(e):
+        _symbols(e.body(), memo, out)
+        return
+    if z3.is_app(e):
+        d = e.decl()
+        if d.kind() == z3.Z3_OP_UNINTERPRETED and d.name() not in _COMMON:
+            out.add(d.name())
+        for ch in e.children():
+            _symbols(ch, memo, out)
+
+
+def relevant(hyps, goal, rounds=2):
+    """the hypotheses within `rounds` steps of the goal in the shares-an-uninterpreted-symbol relation"""
+    syms = set()
+    _symbols(goal, set(), syms)
+    hs = []
+    for h in hyps:
+        o = set()
+        _symbols(h, set(), o)
+        hs.append(o)
+    keep = [False] * len(hyps)
+    for _ in range(rounds):
+        new = set()
+        for k, o in enumerate(hs):
+            if not keep[k] and (o & syms or not o):
+                keep[k] = True
+                new |= o
+        if not new - syms:
+            break
+        syms |= new
+    return [h for h, k in zip(hyps, keep) if k]
+
+
 def has_quantifier(e, memo=None):
     """memo is per call: z3 ast ids are only unique among live terms"""
     if memo is None:
@@ -251,12 +292,15 @@ class PathRun:
                     ngoal, insts = self.skolem_instances(goal, flat)
                     insts = [c for c in insts if not has_quantifier(c)]
                     insts += self.ctor_facts(qf + insts + [ngoal])
-                    s0 = self._solver(int(__import__("os").environ.get("PYVC_QF_MS", min(3000, max(1000, self.d.budget.timeout_ms // 4)))))
+                    qf_ms = int(os.environ.get('PYVC_QF_MS', min(3000, max(1000, self.d.budget.timeout_ms // 4))))
+                    r0 = None
+                    s0 = self._solver(qf_ms)
                     s0.add(*qf)
                     s0.add(*insts)
                     s0.add(ngoal)
                     s0.add(*ground_axioms(qf + insts + [ngoal]))
-                    r0 = str(s0.check())
+                    if r0 is None:
+                        r0 = str(s0.check())
                     if os.environ.get('PYVC_QF_DUMP'):
                         print('  QF', r0, s0.reason_unknown() if r0 == 'unknown' else '', len(insts), file=sys.stderr)
                     if r0 != 'unsat' and os.environ.get('PYVC_QF_DUMP'):
@@ -366,6 +410,36 @@ class PathRun:
         for off in offs[:3]:
             for sk in sks[:1]:
                 add(z3.simplify(off + sk))
+        # element j0 of a concatenation a ++ b ++ c is element j0 - len(a) of b, j0 - len(a) - len(b) of c: the hypotheses
+        # about the parts are needed there
+        if sks:
+            cats, cseen = [], set()
+
+            def concats(e, memo):
+                if e.get_id() in memo or z3.is_quantifier(e):
+                    return
+                memo.add(e.get_id())
+                if z3.is_app(e):
+                    if e.decl().kind() == z3.Z3_OP_SEQ_CONCAT and e.get_id() not in cseen and _is_ground_term(e, gcache) and len(cats) < 4:
+                        cseen.add(e.get_id())
+                        cats.append(e)
+                    for ch in e.children():
+                        concats(ch, memo)
+            memo = set()
+            for e in [ngoal] + [h for h in (hyps if hyps is not None else self.pc) if not has_quantifier(h)]:
+                concats(e, memo)
+            for cat in cats:
+                pre = z3.IntVal(0)
+                for part in cat.children()[:-1]:
+                    if part.decl().kind() == z3.Z3_OP_SEQ_UNIT:
+                        pre = pre + 1
+                    else:
+                        pre = pre + z3.Length(part)
+                    if len(cands) < 16:
+                        t = z3.simplify(sks[0] - pre)
+                        if t.get_id() not in seen:
+                            seen.add(t.get_id())
+                            cands.append(t)
         insts = []
         valq = []
         for h in (hyps if hyps is not None else self.pc):
@@ -392,9 +466,11 @@ class PathRun:
                     return
                 memo.add(e.get_id())
                 if z3.is_app(e):
-                    if e.decl().kind() == z3.Z3_OP_SELECT and z3.is_app(e.arg(0)) and e.arg(0).decl().name().startswith(('DICT_', 'SETOF')):
+                    if e.decl().kind() == z3.Z3_OP_SELECT and e.arg(1).sort() == Val:
+                        # keys looked up in comprehension dicts / sets, and objects whose attributes are read (frame facts
+                        # `every earlier object keeps its attributes` are quantified over objects)
                         k = e.arg(1)
-                        if k.get_id() not in kseen and _is_ground_term(k, gcache) and len(keys) < 6:
+                        if k.get_id() not in kseen and _is_ground_term(k, gcache) and len(keys) < 10:
                             kseen.add(k.get_id())
                             keys.append(k)
                     for ch in e.children():
@@ -569,7 +645,7 @@ class PathRun:
         units = [z3.Unit(self.to_val(e)) for e in v.elems]
         return units[0] if len(units) == 1 else z3.Concat(*units)
 
-    def setof(self, seqt):
+    def setof(self, seqt, axioms=False):
         """the set of the elements of a sequence term, as a membership array SETOF(seq) with its two defining axioms (every
         element is a member; a member occurs at the witness position W(seq, v)).  One function symbol for all sequences: the
         same sequence in code and in a specification gives the same set term."""
@@ -577,6 +653,8 @@ class PathRun:
         W = uf('SETOF_w', SeqV, Val, I)
         a = F(seqt)
         key = ('setof', seqt.get_id())
+        if not axioms:
+            return a       # the defining axioms are added when the set is first asked for a member (setof_axioms)
         if key not in self.gcache:
             self.gcache[key] = seqt
             j = z3.Int(self.fresh('j'))
